@@ -55,40 +55,41 @@ func (c09) Chunk(tier string) int {
 
 func (c09) Thresholds(tier string) map[string]int64 {
 	return map[string]int64{
-		"cases":                                         1500,
-		"executions-in-process":                         4500,
-		"executions-in-fresh-processes":                 4500,
-		"fresh-processes-spawned":                       90,
-		"unrelated-runners-run-before":                  5000,
-		"traces-with>=3-draw-sites":                     500,
-		"seed:long-overflowing":                         150,
-		"seed:all-zeros":                                60,
-		"seed:single-character":                         60,
-		"range-draws:dice":                              30000,
-		"range-draws:random_range":                      30000,
-		"range-draws:random":                            15000,
-		"range:dice(1)":                                 1000,
-		"range:a==b":                                    1000,
-		"range:negative-lower-bound":                    5000,
-		"range:span>=2^31":                              1000,
-		"range-draws-with-empty-seed":                   10000,
-		"draw-hit-lower-bound":                          2000,
-		"draw-hit-upper-bound":                          2000,
-		"range:bounds-at-the-edge-of-the-integer-range": 5000,
-		"range:edge-bounds-refused":                     500,
-		"range:edge-bounds-drawn":                       500,
-		"range:fractional-upper-bound":                  1000,
-		"program-with-a-non-string-jump":                50,
-		"runners-created-while-another-was-alive":       1500,
-		"extreme-search:draws-walked":                   500000000,
-		"extreme-draws-driven-through-the-runner":       150,
-		"extreme-draws-reproduced-by-the-runner":        150,
-		"extreme-draws>=1-2^-25":                        15,
+		"cases":                                              1500,
+		"executions-in-process":                              4500,
+		"executions-in-fresh-processes":                      4500,
+		"fresh-processes-spawned":                            90,
+		"unrelated-runners-run-before":                       5000,
+		"traces-with>=3-draw-sites":                          500,
+		"seed:long-overflowing":                              150,
+		"seed:all-zeros":                                     60,
+		"seed:single-character":                              60,
+		"range-draws:dice":                                   30000,
+		"range-draws:random_range":                           30000,
+		"range-draws:random":                                 15000,
+		"range-draws-with-bounds-that-change-between-passes": 20000,
+		"range:dice(1)":                                      1000,
+		"range:a==b":                                         1000,
+		"range:negative-lower-bound":                         5000,
+		"range:span>=2^31":                                   1000,
+		"range-draws-with-empty-seed":                        10000,
+		"draw-hit-lower-bound":                               2000,
+		"draw-hit-upper-bound":                               2000,
+		"range:bounds-at-the-edge-of-the-integer-range":      5000,
+		"range:edge-bounds-refused":                          500,
+		"range:edge-bounds-drawn":                            500,
+		"range:fractional-upper-bound":                       1000,
+		"program-with-a-non-string-jump":                     50,
+		"runners-created-while-another-was-alive":            1500,
+		"extreme-search:draws-walked":                        500000000,
+		"extreme-draws-driven-through-the-runner":            150,
+		"extreme-draws-reproduced-by-the-runner":             150,
+		"extreme-draws>=1-2^-25":                             15,
 	}
 }
 
 func (c09) Rule() string {
-	return "case = one generated program that uses dice, random and random_range in lines, if conditions, option conditions, set statements and computed jump targets (bounds up to 9*10^15, so spans beyond 2^31 and 2^32 occur), one program in three with a line that fails on an unknown variable (error texts are part of the digest), one seed over [0-9a-z] (lengths 1-40: single characters, all zeros, long seeds that overflow the base-36 accumulation) and one PRNG choice policy. The case is executed: twice in-process back to back; once more in-process after 1-20 unrelated runners (other seeds, the empty seed) were created and stepped; and in 3 fresh processes per chunk of cases (GOMAXPROCS 1 / 4 / 16, executing the chunk forwards, backwards and shuffled, so that 'what ran before' differs). Oracle: all executions have the same SHA-256 digest over every element (node, text, tags, attribute list, options and flags), every error text and the final GetValues(). Range sub-workload per case: 70 captured draws with bounds incl. dice(1), a == b, negative bounds and spans up to 2^31, with the case's seed or the empty seed: dice(n) is an integer in [1,n], random_range(a,b) an integer in [a,b], random() in [0,1). Non-trivial: the trace has >=3 random draw sites and the program branches on a draw. Distinct by hash of scripts+seed+choice policy. Each execution is also repeated with other runners created (and partly driven) between its creation and its steps. One case per chunk aims at the bounds of random(): the harness walks the generator (internal/rng) over 48 million draws of PRNG seeds, keeps the 10 draws closest to 1 and the 3 closest to 0, and makes the real runner produce exactly those draws (a script calling random() k+1 times under that seed); every value returned through the runner must be in [0,1). One program in fifteen contains a jump whose destination is a number, boolean or draw (error texts are part of the digest)."
+	return "case = one generated program that uses dice, random and random_range in lines, if conditions, option conditions, set statements and computed jump targets (bounds up to 9*10^15, so spans beyond 2^31 and 2^32 occur), one program in three with a line that fails on an unknown variable (error texts are part of the digest), one seed over [0-9a-z] (lengths 1-40: single characters, all zeros, long seeds that overflow the base-36 accumulation) and one PRNG choice policy. The case is executed: twice in-process back to back; once more in-process after 1-20 unrelated runners (other seeds, the empty seed) were created and stepped; and in 3 fresh processes per chunk of cases (GOMAXPROCS 1 / 4 / 16, executing the chunk forwards, backwards and shuffled, so that 'what ran before' differs). Oracle: all executions have the same SHA-256 digest over every element (node, text, tags, attribute list, options and flags), every error text and the final GetValues(). Range sub-workload per case: 70 captured draws with bounds incl. dice(1), a == b, negative bounds and spans up to 2^31, with the case's seed or the empty seed: dice(n) is an integer in [1,n], random_range(a,b) an integer in [a,b], random() in [0,1). Also per case: one call site of each built-in whose bounds are compound expressions over variables ($n * 1, $lo + 0 ...), run six times by the same runner while the host changes the variables between passes (every draw within the bounds of its pass). Non-trivial: the trace has >=3 random draw sites and the program branches on a draw. Distinct by hash of scripts+seed+choice policy. Each execution is also repeated with other runners created (and partly driven) between its creation and its steps. One case per chunk aims at the bounds of random(): the harness walks the generator (internal/rng) over 48 million draws of PRNG seeds, keeps the 10 draws closest to 1 and the 3 closest to 0, and makes the real runner produce exactly those draws (a script calling random() k+1 times under that seed); every value returned through the runner must be in [0,1). One program in fifteen contains a jump whose destination is a number, boolean or draw (error texts are part of the digest)."
 }
 
 func (c09) Assumptions() []string {
@@ -406,8 +407,67 @@ func (p c09) Run(c *core.Ctx) {
 	}
 	c09Batch = append(c09Batch, c09Item{Idx: c.Idx, Scripts: scripts, Seed: seed, ChoiceSeed: choiceSeed, Digest: d1, Summary: s1})
 	p.ranges(c, seed)
+	if !c.Failed() {
+		p.movingBounds(c, seed)
+	}
 	if c.Idx%50 == 7 && !c.Failed() {
 		p.extremes(c)
+	}
+}
+
+// movingBounds: one call site of each random built-in whose bounds are compound expressions over variables, run
+// six times by the same runner while the host changes the variables between the passes: every draw lies within
+// the bounds as they evaluate at that pass.
+func (c09) movingBounds(c *core.Ctx, seed string) {
+	r := c.R
+	script := "title: Start\n---\n<<call capb(dice($n * 1), random_range($lo + 0, $hi - 0), dice(0 + $n), random_range(-$hi, -$lo), dice(integer($n)), random_range($lo, $lo))>>\n<<set $pass to $pass + 1>>\n<<if $pass < 6>>\n<<jump Start>>\n<<endif>>\ndone\n===\n"
+	st := variable.NewInMemoryStorer()
+	ns := []float64{float64(r.Range(500, 100000)), 2, float64(r.Range(3, 60)), 1, float64(r.Range(2, 9)), 3}
+	los := []float64{-float64(r.Range(100, 9000)), 5, -2, float64(r.Range(10, 20)), 0, -1}
+	spans := []float64{float64(r.Range(1000, 50000)), 1, 0, 3, float64(r.Range(1, 6)), 2}
+	pass := 0
+	load := func() {
+		st.SetNumberValue("n", ns[pass])
+		st.SetNumberValue("lo", los[pass])
+		st.SetNumberValue("hi", los[pass]+spans[pass])
+	}
+	st.SetNumberValue("pass", 0)
+	load()
+	rr, err, pan := mon.Create(st, seed, []string{script})
+	if err != nil || pan != "" {
+		c.Violate("the moving-bounds script could not be created", map[string]any{"readers": []string{script}, "seed": seed, "error": fmt.Sprint(err), "panic": pan})
+		return
+	}
+	bad := ""
+	rr.DR.AddFunction("capb", func(a []*variable.Value) (*variable.Value, error) {
+		if bad != "" || pass >= len(ns) {
+			return nil, nil
+		}
+		n, lo, hi := ns[pass], los[pass], los[pass]+spans[pass]
+		want := [][2]float64{{1, n}, {lo, hi}, {1, n}, {-hi, -lo}, {1, n}, {lo, lo}}
+		for i, w := range want {
+			if i >= len(a) || a[i] == nil || a[i].Number == nil {
+				bad = fmt.Sprintf("pass %d: draw %d is not a number", pass+1, i)
+				break
+			}
+			if v := *a[i].Number; v != math.Trunc(v) || v < w[0] || v > w[1] {
+				bad = fmt.Sprintf("pass %d ($n = %v, $lo = %v, $hi = %v): draw %d returned %v, outside [%v,%v]", pass+1, n, lo, hi, i, v, w[0], w[1])
+				break
+			}
+			c.Feature("range-draws-with-bounds-that-change-between-passes")
+		}
+		pass++
+		if pass < len(ns) {
+			load() // the host changes the bounds for the next pass
+		}
+		return nil, nil
+	})
+	o := rr.Next(0)
+	if bad == "" && (o.Kind != mon.KLine || o.Text != "done" || pass != 6) {
+		bad = fmt.Sprintf("the script did not run its six passes (passes %d, result %s)", pass, o)
+	}
+	if bad != "" {
+		c.Violate("a random built-in whose bounds are expressions over variables, evaluated again by the same runner: "+bad, map[string]any{"readers": []string{script}, "seed": seed})
 	}
 }
 
